@@ -576,8 +576,8 @@ func main() {
 		}
 		tr.Flush()
 	}
-	if started && pendingCfg && !died {
-		doSync()
+	if started && !died {
+		doSync() // every script ends with an observation
 	}
 	tr.Flush()
 	if started {
